@@ -596,6 +596,48 @@ def resume_oracle(run, c, K, recs, rrecs, scn):
                 return
 
 
+# ------------------------------------------------------------------------------------ Langevin statistics (thorough tier)
+def langevin_stat_cases(r, nsteps):
+    """long thermostatted runs with frozen atoms and a seeded, standardised Gaussian stream: the stationary second moments of
+    (x - X, v_(t-1/2)) must be the exact discrete fixed point (C17_langevin_stationary_covariance): kT/k, Dt kT/(2m), kT/m"""
+    import random
+    out = []
+    for (tsf, dt, damping, per) in [(1, 1.0, 200.0, 16.0), (1, 2.0, 50.0, 8.0), (2, 1.0, 175.0, 16.0), (3, 0.5, 300.0, 12.0), (2, 2.0, 25.0, 32.0), (4, 0.5, 100.0, 8.0)]:
+        c = {"kind": "langevin-stat", "temp": 300.0, "tol": r.choice([0.25, 0.5]), "dt": dt, "tsf": tsf, "tau": dt * tsf * per, "damping": damping,
+             "width": 0.25, "lower": 0.0, "upper": 2.0, "rlo": 0, "rup": 0, "per": 0, "P": 0.0, "ctr": 0.0, "same": 0, "sub": 0, "running": 1}
+        g = random.Random(r.randint(0, 2 ** 30))
+        xs = [g.gauss(0.0, 1.0) for _ in range(nsteps)]
+        m_ = sum(xs) / len(xs)
+        sd = math.sqrt(sum((a - m_) ** 2 for a in xs) / len(xs))
+        c["gauss"] = [(a - m_) / sd for a in xs]
+        c["events"] = [{"boundary": 0, "running": 1, "x": 1.0, "fb": 0.0, "fba": 0.0} for _ in range(nsteps * tsf)]
+        out.append(c)
+    return out
+
+
+def langevin_stat_oracle(run, c, recs, scn):
+    k, m = doc_params(c)
+    kT = KB * c["temp"]
+    bigdt = c["dt"] * c["tsf"]
+    aw = [rec for (j, it, a), rec in zip(awake_steps(c), recs) if a and rec is not None]
+    aw = aw[len(aw) // 10:]
+    n = len(aw)
+    d = [rec["x_rep"] - 1.0 for rec in aw]
+    v = [rec["v_rep"] for rec in aw]
+    sxx = sum(a * a for a in d) / n
+    svv = sum(a * a for a in v) / n
+    sxv = sum(a * b for a, b in zip(d, v)) / n
+    want = (kT / k, bigdt / 2 * kT / m, kT / m)
+    run.dist("langevin-stat-runs")
+    rep = {"kind": "scenario-head", "scenario": scn[:40], "steps": len(recs), "measured": (sxx, sxv, svv), "exact_fixed_point": want}
+    tol = 0.12
+    if abs(sxx / want[0] - 1) > tol or abs(svv / want[2] - 1) > tol or abs(sxv - want[1]) > tol * math.sqrt(want[0] * want[2]):
+        run.violation("langevin:stationary-covariance",
+                      "thermostatted coordinate, frozen atoms, %d updates (timeStepFactor %d, dt %r, damping %r /ps): <(x-X)^2>, <(x-X)v>, <v^2> = %r, %r, %r; "
+                      "the exact stationary values of the documented scheme are %r, %r, %r (target temperature %r K)"
+                      % (n, c["tsf"], c["dt"], c["damping"], sxx, sxv, svv, want[0], want[1], want[2], c["temp"]), rep)
+
+
 # ------------------------------------------------------------------------------------ bypass table (regenerated from the binary)
 BIAS_CONFIGS = [
     ("harmonic", ["centers 1.0", "forceConstant 1.0"]),
@@ -987,6 +1029,17 @@ def check(run):
         impl_r = {tag: (ok2, recs2)}
         compare(run, cs, tag, scn, impl_r, rlines[n_], rmout[n_] if n_ < len(rmout) else "", first_event=K - 1)
         oracles(run, cs, recs2, scn, first_event=K - 1, resumed=True)
+    # -- thorough tier: stationary second moments of the thermostatted coordinate on the implementation alone
+    if not quick:
+        lcs = langevin_stat_cases(r, 12000)
+        lscn = [("L%d" % i, scenario(c_, "L%d" % i)) for i, c_ in enumerate(lcs)]
+        limpl = run_impl(sim, lscn, d)
+        for i, c_ in enumerate(lcs):
+            ok_, recs_ = limpl.get("L%d" % i, (False, []))
+            if not ok_ or len(recs_) != len(c_["events"]):
+                run.mismatch("scenario:langevin-stat", {"scenario": lscn[i][1][:40]}, "ok=%s records=%d" % (ok_, len(recs_)), "%d engine steps" % len(c_["events"]))
+                continue
+            langevin_stat_oracle(run, c_, recs_, lscn[i][1])
     run.cov["correspondence"].update({"scenarios": len(cases) + len(rjobs), "engine_steps": sum(len(c["events"]) for c in cases)})
 
 
